@@ -15,7 +15,7 @@ from ..util import arr_equal, describe
 PROP = 'C15'
 
 PARAMS = [(1, 0), (1, 1), (1, 2), (2, 1), (2, 2), (3, 1)]      # (bin in samples, half-window in bins)
-RATES = [1.0, 2.0, 0.5, 1024.0]
+RATES = [1.0, 2.0, 0.5, 1024.0, 10.0, 1000.0]   # 10 / 1000: used only where time * rate is exact
 EXTRA = 9   # an id that never has spikes
 
 
@@ -76,6 +76,9 @@ def run_case(case, acc, order):
     samples = np.array(train, dtype=np.int64)
     rate = RATES[(order + case['seed']) % len(RATES)]
     times = samples / rate
+    if not np.array_equal((times * rate).astype(np.int64), samples):
+        rate = 1.0                       # the precondition "time * rate is exact" does not hold here
+        times = samples / rate
     ctype = [np.int64, np.int32][(order + case['seed']) % 2]
     lists = id_lists(alphabet, case['tier'], order + case['seed'])
     only = case.get('only')
@@ -196,6 +199,12 @@ def long_cases(ctx):
                         cases.append({'train': [int(t) for t in train], 'alphabet': [2, 5],
                                       'seed': ctx.seed, 'tier': 'thorough-long',
                                       'only': {'labels': periodic(lab, n)}})
+    # a dense train: one (i, j, k) entry holds more pairs than a 16-bit counter
+    for n in ((300, 400) if ctx.thorough else (300,)):
+        cases.append({'train': [0] * n, 'alphabet': [2, 5], 'seed': ctx.seed, 'tier': 'thorough-long',
+                      'only': {'labels': [2] * n}})
+        cases.append({'train': [0] * (n // 2) + [1] * (n - n // 2), 'alphabet': [2, 5], 'seed': ctx.seed,
+                      'tier': 'thorough-long', 'only': {'labels': [2, 5] * (n // 2) + [2] * (n % 2)}})
     return cases
 
 
